@@ -71,28 +71,60 @@ fn conv<T>(r: Result<lexpr::parse::Result<T>, Abnormal>, to_value: impl FnOnce(T
 }
 
 /// Run `api` over an in-memory source. `as_str` selects `StrRead`.
-pub fn run_mem(opts: Options, api: Api, bytes: &[u8], as_str: bool, mon: &mut Mon) -> Vec<PRes> {
+/// Which documented preset an option-set index is: those go through the
+/// wrappers that exist for them (`from_str`, `from_str_elisp`, ...), every other
+/// set through `*_custom`.
+#[derive(Clone, Copy, PartialEq, Eq)]
+pub enum Preset {
+    Default,
+    Elisp,
+    None,
+}
+
+pub fn preset_of(opts_ix: u32) -> Preset {
+    if opts_ix == opts::PARSE_DEFAULT {
+        Preset::Default
+    } else if opts_ix == opts::parse_elisp_index() {
+        Preset::Elisp
+    } else {
+        Preset::None
+    }
+}
+
+pub fn run_mem(opts_ix: u32, api: Api, bytes: &[u8], as_str: bool, mon: &mut Mon) -> Vec<PRes> {
+    let opts = opts::parse_options(opts_ix);
+    let preset = preset_of(opts_ix);
     let what = if as_str { "str source" } else { "slice source" };
     let s = if as_str { Some(std::str::from_utf8(bytes).expect("caller checked")) } else { None };
     beat();
     mon.evaluations += 1;
     match api {
         Api::Value => {
-            let r = guarded(|| match s {
-                Some(s) => lexpr::from_str_custom(s, opts),
-                None => lexpr::from_slice_custom(bytes, opts),
+            let r = guarded(|| match (s, preset) {
+                (Some(s), Preset::Default) => lexpr::from_str(s),
+                (Some(s), Preset::Elisp) => lexpr::parse::from_str_elisp(s),
+                (Some(s), Preset::None) => lexpr::from_str_custom(s, opts),
+                (None, Preset::Default) => lexpr::from_slice(bytes),
+                (None, Preset::Elisp) => lexpr::parse::from_slice_elisp(bytes),
+                (None, Preset::None) => lexpr::from_slice_custom(bytes, opts),
             });
             vec![conv(r, Some, &Seen::all(bytes), &[], mon, what)]
         }
         Api::Datum => {
-            let r = guarded(|| match s {
-                Some(s) => lexpr::datum::from_str_custom(s, opts),
-                None => lexpr::datum::from_slice_custom(bytes, opts),
+            let r = guarded(|| match (s, preset) {
+                (Some(s), Preset::Default) => lexpr::datum::from_str(s),
+                (Some(s), Preset::Elisp) => lexpr::datum::from_str_elisp(s),
+                (Some(s), Preset::None) => lexpr::datum::from_str_custom(s, opts),
+                (None, Preset::Default) => lexpr::datum::from_slice(bytes),
+                (None, Preset::Elisp) => lexpr::datum::from_slice_elisp(bytes),
+                (None, Preset::None) => lexpr::datum::from_slice_custom(bytes, opts),
             });
             vec![conv(r, |d| Some(d.value().clone()), &Seen::all(bytes), &[], mon, what)]
         }
         _ => match s {
+            Some(s) if preset == Preset::Default => drain(Parser::from_str(s), api, bytes, 0, None, mon, what).0,
             Some(s) => drain(Parser::from_str_custom(s, opts), api, bytes, 0, None, mon, what).0,
+            None if preset == Preset::Default => drain(Parser::from_slice(bytes), api, bytes, 0, None, mon, what).0,
             None => drain(Parser::from_slice_custom(bytes, opts), api, bytes, 0, None, mon, what).0,
         },
     }
@@ -155,6 +187,7 @@ fn drain<'de, R: lexpr::parse::Read<'de>>(
 }
 
 struct StreamRunner<'m> {
+    preset: Preset,
     opts: Options,
     api: Api,
     input: &'m [u8],
@@ -171,16 +204,29 @@ impl<'m> WithReader for StreamRunner<'m> {
             Api::Value | Api::Datum => {
                 self.shared.begin_op();
                 let opts = self.opts;
+                let preset = self.preset;
                 let r = if self.api == Api::Value {
-                    guarded(|| lexpr::from_reader_custom(reader, opts))
+                    guarded(|| match preset {
+                        Preset::Default => lexpr::from_reader(reader),
+                        Preset::Elisp => lexpr::parse::from_reader_elisp(reader),
+                        Preset::None => lexpr::from_reader_custom(reader, opts),
+                    })
                 } else {
-                    guarded(|| lexpr::datum::from_reader_custom(reader, opts).map(|d| d.value().clone()))
+                    guarded(|| {
+                        match preset {
+                            Preset::Default => lexpr::datum::from_reader(reader),
+                            Preset::Elisp => lexpr::datum::from_reader_elisp(reader),
+                            Preset::None => lexpr::datum::from_reader_custom(reader, opts),
+                        }
+                        .map(|d| d.value().clone())
+                    })
                 };
                 let fired = self.shared.fired.borrow().clone();
                 let seen = self.shared.delivered.get().min(self.input.len());
                 let fired_item = if fired.is_empty() { None } else { Some(0) };
                 (vec![conv(r, Some, &Seen::prefix(self.input, seen), &fired, self.mon, what)], fired_item)
             }
+            _ if self.preset == Preset::Default => drain(Parser::from_reader(reader), self.api, self.input, self.planned_faults, Some(&self.shared), self.mon, what),
             _ => drain(Parser::from_reader_custom(reader, self.opts), self.api, self.input, self.planned_faults, Some(&self.shared), self.mon, what),
         }
     }
@@ -199,6 +245,7 @@ pub fn run_stream(case: &StreamCase, mon: &mut Mon) -> StreamRun {
     beat();
     mon.evaluations += 1;
     let runner = StreamRunner {
+        preset: preset_of(case.opts),
         opts: opts::parse_options(case.opts),
         api: case.api,
         input: &case.input,
@@ -229,14 +276,14 @@ impl Refs {
     }
     fn full(&mut self, case: &StreamCase, mon: &mut Mon) -> &Vec<PRes> {
         if self.full.is_none() {
-            self.full = Some(run_mem(opts::parse_options(case.opts), case.api, &case.input, false, mon));
+            self.full = Some(run_mem(case.opts, case.api, &case.input, false, mon));
         }
         self.full.as_ref().unwrap()
     }
     fn prefix(&mut self, case: &StreamCase, k: usize, mon: &mut Mon) -> &Vec<PRes> {
         let k = k.min(case.input.len());
         if !self.prefix.contains_key(&k) {
-            let r = run_mem(opts::parse_options(case.opts), case.api, &case.input[..k], false, mon);
+            let r = run_mem(case.opts, case.api, &case.input[..k], false, mon);
             self.prefix.insert(k, r);
         }
         &self.prefix[&k]
@@ -438,7 +485,7 @@ pub fn check_str_vs_slice(case: &StreamCase, refs: &mut Refs, mon: &mut Mon) {
     if std::str::from_utf8(&case.input).is_err() {
         return;
     }
-    let s = run_mem(opts::parse_options(case.opts), case.api, &case.input, true, mon);
+    let s = run_mem(case.opts, case.api, &case.input, true, mon);
     let full = refs.full(case, mon);
     mon.count("c06.str_vs_slice");
     if !equiv_seq(&s, full) {
@@ -555,7 +602,6 @@ fn token_class_at(text: &[u8], k: usize) -> &'static str {
 /// O19.1 for one (text, k): slice, str (when valid) and a stream that ends at k.
 pub fn check_trunc_case(case: &TruncCase, mon: &mut Mon) {
     let api = if case.datum_api { Api::Datum } else { Api::Value };
-    let opts = opts::parse_options(case.opts);
     let k = case.k.min(case.text.len());
     let prefix = &case.text[..k];
     let lexname = token_class_at(&case.text, k);
@@ -581,11 +627,11 @@ pub fn check_trunc_case(case: &TruncCase, mon: &mut Mon) {
         }
         mon.tuple(format!("trunc|{}|{}|{}", lexname, src, class_of(r)));
     };
-    let r = run_mem(opts, api, prefix, false, mon);
+    let r = run_mem(case.opts, api, prefix, false, mon);
     judge("slice", &r[0], mon);
     let slice_res = r;
     if std::str::from_utf8(prefix).is_ok() {
-        let r = run_mem(opts, api, prefix, true, mon);
+        let r = run_mem(case.opts, api, prefix, true, mon);
         judge("str", &r[0], mon);
     }
     let sc = StreamCase {
@@ -619,8 +665,7 @@ pub struct ReceiverCase {
 }
 
 pub fn check_receiver_case(case: &ReceiverCase, mon: &mut Mon) {
-    let opts = opts::parse_options(case.opts);
-    let want = run_mem(opts, Api::Value, &case.text, false, mon);
+    let want = run_mem(case.opts, Api::Value, &case.text, false, mon);
     if !matches!(want[0], Ok(Some(_))) {
         mon.count("c19.receiver_inconclusive");
         return;
@@ -632,7 +677,7 @@ pub fn check_receiver_case(case: &ReceiverCase, mon: &mut Mon) {
     let mut last = None;
     for (i, &c) in cuts.iter().enumerate() {
         let buf = &case.text[..c];
-        let r = run_mem(opts, Api::Value, buf, false, mon);
+        let r = run_mem(case.opts, Api::Value, buf, false, mon);
         mon.fold(&r[0]);
         let final_seg = i + 1 == cuts.len();
         match &r[0] {
